@@ -458,7 +458,9 @@ impl<L: Language, N: Analysis<L>> EGraph<L, N> {
     /// Returns the canonical e-node corresponding to `i`.
     pub fn get_syn_node(&self, i: &AppliedId) -> L {
         let syn = &self.classes[&i.id].syn_enode;
-        syn.apply_slotmap(&i.m)
+        // the stored node may use a user-chosen name for a bound slot; an argument of `i` with
+        // the same name would be captured.
+        syn.refresh_private().apply_slotmap(&i.m)
     }
 }
 
